@@ -1142,7 +1142,7 @@ fn groups_core(prop: &str, tier: &str) -> Vec<Group> {
             specs.push(simple(cat(diff(diff(builtin("ascii_alphanumeric"), builtin("ascii_digit")), builtin("ascii_uppercase")), ch('x'))));
             // two search tables in one lexer, one a prefix of / contained in the other (each behind its own first character)
             let astral = set(&[('\u{10000}', '\u{10FFFF}')]);
-            let pre = |p: char, c: Re| rule(cat(ch(p), c), Kind::Simple);
+            let pre = |p: char, c: Re| rule(cat(cat(ch(p), c), ch('x')), Kind::Simple);
             for n in ["alphabetic", "lowercase", "numeric", "XID_Continue"] {
                 specs.push(Spec::single(vec![pre('1', builtin(n)), pre('2', diff(builtin(n), astral.clone()))], "builtin_tables"));
                 specs.push(Spec::single(vec![pre('1', diff(builtin(n), astral.clone())), pre('2', builtin(n)), pre('3', diff(builtin(n), set(&[('\u{0}', '\u{FFFF}')])))], "builtin_tables"));
@@ -1287,6 +1287,20 @@ fn groups_core(prop: &str, tier: &str) -> Vec<Group> {
                     sets: vec![
                         RuleSet { lets: lets(&[("stop", s0)]), rules: vec![Rule { re: ch('a'), ctx: Some(var("stop")), kind: Kind::Act(d_switch_return(1)) }, ret(set(&[('a', 'c')]))] },
                         RuleSet { lets: lets(&[("stop", s1)]), rules: vec![Rule { re: ch('a'), ctx: Some(var("stop")), kind: Kind::Act(d_switch_return(0)) }, ret(set(&[('a', 'c')]))] },
+                    ],
+                    named: true,
+                    decl_order: vec![],
+                    family: "let_scope_ctx",
+                    set_names: vec![],
+                });
+            }
+            // the same without a catch-all rule: a failing context is an InvalidToken
+            for (s0, s1) in [(ch('b'), ch('c')), (set(&[('b', 'c')]), Re::Eoi), (st("bc"), ch('b')), (ch('c'), set(&[('a', 'b')]))] {
+                specs.push(Spec {
+                    lets: vec![],
+                    sets: vec![
+                        RuleSet { lets: lets(&[("stop", s0)]), rules: vec![Rule { re: plus(ch('a')), ctx: Some(var("stop")), kind: Kind::Act(D_RETURN) }, ret(ch('b')), rule(ch('c'), Kind::Act(d_switch_return(1)))] },
+                        RuleSet { lets: lets(&[("stop", s1)]), rules: vec![rule(ch('c'), Kind::Act(d_switch_return(0))), Rule { re: plus(ch('a')), ctx: Some(ch('x')), kind: Kind::Act(D_RETURN) }, Rule { re: plus(ch('a')), ctx: Some(var("stop")), kind: Kind::Act(D_RETURN) }, ret(ch('b'))] },
                     ],
                     named: true,
                     decl_order: vec![],
